@@ -665,3 +665,10 @@ impl Send {
         self.is_extended_connect_protocol_enabled
     }
 }
+
+#[cfg(feature = "verif")]
+impl Send {
+    pub(super) fn verif_stats(&self) -> (i32, i32) {
+        self.prioritize.verif_stats()
+    }
+}
